@@ -29,7 +29,7 @@ class Datagroup:
             return d
 
     def __setitem__(self, key, value):
-        if self.shape and (self.shape != value.shape):
+        if len(self) > 0 and (self.shape != value.shape):
             raise ValueError(
                 "Size mismatch on element insertion. Item "
                 "shape is {} while container accepts shape {}.".format(
